@@ -11,33 +11,110 @@ import (
 	"golang.org/x/tools/go/packages"
 )
 
+// Gen.MapRanges (C17): a census of every place in the generation path where the
+// order of a Go map can become observable:
+//
+//	range      `for … := range m` with m of map type
+//	maps.Keys  calls of maps.Keys / maps.Values / maps.All (std or x/exp) on a map — whether ranged
+//	           directly or collected with slices.Collect/AppendSeq; NOT counted when the call is the
+//	           direct argument of slices.Sorted / SortedFunc / SortedStableFunc (order erased at once)
+//	reflect    reflect.Value.MapKeys / MapRange / Seq / Seq2
+//	sync.Map   (*sync.Map).Range
+//
+// The obligation in Props/C17Tables is stated on `mapIterTypes`: the SET of (package, underlying map
+// type) pairs, so that moving a loop into a helper, renaming a variable or a named map type, inlining
+// Clone+DifferenceUpdate or adding another loop over a map type that package already iterates does not
+// change it, while the first iteration over a new map type in a package does. The sites are emitted
+// for information (`mapIterSites`) and never compared.
 func init() {
-	// Gen.MapRanges: every `range` over a map-typed expression in the non-test,
-	// non-verif sources of the packages that take part in generation. Each site is
-	// a potential source of order dependence (C17).
 	genLean["MapRanges"] = func(repo string) (string, error) {
 		cfg := &packages.Config{
 			Mode: packages.NeedName | packages.NeedFiles | packages.NeedSyntax | packages.NeedTypes | packages.NeedTypesInfo | packages.NeedImports | packages.NeedDeps,
 			Dir:  repo,
 			Env:  append(envForGo(), "GOFLAGS=-mod=mod"),
 		}
-		pkgs, err := packages.Load(cfg, "./reg", "./ir", "./pass", "./printer", "./build", "./gotypes", "./buildtags", "./attr", "./operand", "./x86", "./internal/prnt")
+		pkgs, err := packages.Load(cfg, "./reg", "./ir", "./pass", "./printer", "./build", "./gotypes", "./buildtags", "./attr",
+			"./operand", "./x86", "./internal/prnt", "./internal/stack", "./src")
 		if err != nil {
 			return "", err
 		}
-		type site struct{ file, fn, expr string }
+		qual := func(p *types.Package) string { return p.Name() }
+		mapType := func(t types.Type) (string, bool) {
+			if t == nil {
+				return "", false
+			}
+			if m, ok := t.Underlying().(*types.Map); ok {
+				return types.TypeString(m, qual), true
+			}
+			// type parameter constrained to maps, pointer to map: not used in avo; be conservative
+			return "", false
+		}
+		type site struct{ file, fn, kind, expr string }
 		var sites []site
+		typeSet := map[[2]string]bool{}
 		for _, p := range pkgs {
 			if len(p.Errors) > 0 {
 				return "", fmt.Errorf("package %s: %v", p.PkgPath, p.Errors[0])
 			}
+			pkgRel := strings.TrimPrefix(strings.TrimPrefix(p.PkgPath, "github.com/mmcloughlin/avo"), "/")
+			calleeOf := func(c *ast.CallExpr) (pkgPath, recv, name string) {
+				var id *ast.Ident
+				switch f := ast.Unparen(c.Fun).(type) {
+				case *ast.SelectorExpr:
+					id = f.Sel
+				case *ast.Ident:
+					id = f
+				case *ast.IndexExpr: // explicit instantiation maps.Keys[M]
+					if s, ok := ast.Unparen(f.X).(*ast.SelectorExpr); ok {
+						id = s.Sel
+					}
+				case *ast.IndexListExpr:
+					if s, ok := ast.Unparen(f.X).(*ast.SelectorExpr); ok {
+						id = s.Sel
+					}
+				}
+				if id == nil {
+					return
+				}
+				fn, ok := p.TypesInfo.Uses[id].(*types.Func)
+				if !ok || fn.Pkg() == nil {
+					return
+				}
+				pkgPath, name = fn.Pkg().Path(), fn.Name()
+				if sig, ok := fn.Type().(*types.Signature); ok && sig.Recv() != nil {
+					rt := sig.Recv().Type()
+					if pt, ok := rt.(*types.Pointer); ok {
+						rt = pt.Elem()
+					}
+					if nt, ok := rt.(*types.Named); ok {
+						recv = nt.Obj().Name()
+					}
+				}
+				return
+			}
+			isMapsPkg := func(path string) bool { return path == "maps" || path == "golang.org/x/exp/maps" }
 			for _, f := range p.Syntax {
 				path := p.Fset.Position(f.Pos()).Filename
 				rel, _ := filepath.Rel(repo, path)
 				if strings.HasSuffix(rel, "_test.go") || strings.Contains(rel, "verif_export") {
 					continue
 				}
+				// calls whose order is erased immediately: slices.Sorted*(maps.Keys(m))
+				sortedArg := map[ast.Expr]bool{}
+				ast.Inspect(f, func(n ast.Node) bool {
+					if c, ok := n.(*ast.CallExpr); ok && len(c.Args) > 0 {
+						pp, _, name := calleeOf(c)
+						if (pp == "slices" || pp == "golang.org/x/exp/slices") && strings.HasPrefix(name, "Sorted") {
+							sortedArg[ast.Unparen(c.Args[0])] = true
+						}
+					}
+					return true
+				})
 				var curFn string
+				add := func(kind, typ string, e ast.Expr) {
+					sites = append(sites, site{rel, curFn, kind, types.ExprString(e)})
+					typeSet[[2]string{pkgRel, typ}] = true
+				}
 				ast.Inspect(f, func(n ast.Node) bool {
 					switch x := n.(type) {
 					case *ast.FuncDecl:
@@ -46,11 +123,25 @@ func init() {
 							curFn = types.ExprString(x.Recv.List[0].Type) + "." + curFn
 						}
 					case *ast.RangeStmt:
-						t := p.TypesInfo.TypeOf(x.X)
-						if t != nil {
-							if _, ok := t.Underlying().(*types.Map); ok {
-								sites = append(sites, site{rel, curFn, types.ExprString(x.X)})
+						if ts, ok := mapType(p.TypesInfo.TypeOf(x.X)); ok {
+							add("range", ts, x.X)
+						}
+					case *ast.CallExpr:
+						pp, recv, name := calleeOf(x)
+						switch {
+						case isMapsPkg(pp) && (name == "Keys" || name == "Values" || name == "All") && len(x.Args) == 1:
+							if sortedArg[x] {
+								break
 							}
+							ts, ok := mapType(p.TypesInfo.TypeOf(x.Args[0]))
+							if !ok {
+								ts = "maps." + name + "(?)"
+							}
+							add("maps."+name, ts, x.Args[0])
+						case pp == "reflect" && recv == "Value" && (name == "MapKeys" || name == "MapRange" || name == "Seq" || name == "Seq2"):
+							add("reflect."+name, "reflect.Value", x.Fun)
+						case pp == "sync" && recv == "Map" && name == "Range":
+							add("sync.Map.Range", "sync.Map", x.Fun)
 						}
 					}
 					return true
@@ -58,22 +149,44 @@ func init() {
 			}
 		}
 		sort.Slice(sites, func(i, j int) bool {
-			if sites[i].file != sites[j].file {
-				return sites[i].file < sites[j].file
+			a, b := sites[i], sites[j]
+			if a.file != b.file {
+				return a.file < b.file
 			}
-			if sites[i].fn != sites[j].fn {
-				return sites[i].fn < sites[j].fn
+			if a.fn != b.fn {
+				return a.fn < b.fn
 			}
-			return sites[i].expr < sites[j].expr
+			if a.kind != b.kind {
+				return a.kind < b.kind
+			}
+			return a.expr < b.expr
+		})
+		var tys [][2]string
+		for k := range typeSet {
+			tys = append(tys, k)
+		}
+		sort.Slice(tys, func(i, j int) bool {
+			if tys[i][0] != tys[j][0] {
+				return tys[i][0] < tys[j][0]
+			}
+			return tys[i][1] < tys[j][1]
 		})
 		var b strings.Builder
 		b.WriteString("-- REGENERATED by avoh gen-lean MapRanges (go/types over /repo). Do not edit.\nnamespace Avo.Gen\n")
-		b.WriteString("/-- (file, function, ranged expression) of every `range` over a map -/\ndef mapRanges : List (String × String × String) := [\n")
+		b.WriteString("/-- (package, underlying map type) of every map whose order is enumerated somewhere in the generation path\n(range over a map, maps.Keys/Values/All, reflect MapKeys/MapRange, sync.Map.Range) -/\ndef mapIterTypes : List (String × String) := [\n")
+		for i, t := range tys {
+			if i > 0 {
+				b.WriteString(",\n")
+			}
+			fmt.Fprintf(&b, "  (%s, %s)", leanStr(t[0]), leanStr(t[1]))
+		}
+		b.WriteString("]\n")
+		b.WriteString("/-- for information only (never compared): (file, function, kind, expression) of every such site -/\ndef mapIterSites : List (String × String × String × String) := [\n")
 		for i, s := range sites {
 			if i > 0 {
 				b.WriteString(",\n")
 			}
-			fmt.Fprintf(&b, "  (%s, %s, %s)", leanStr(s.file), leanStr(s.fn), leanStr(s.expr))
+			fmt.Fprintf(&b, "  (%s, %s, %s, %s)", leanStr(s.file), leanStr(s.fn), leanStr(s.kind), leanStr(s.expr))
 		}
 		b.WriteString("]\nend Avo.Gen\n")
 		return b.String(), nil
